@@ -95,3 +95,35 @@ func okParks(ctx context.Context, ch chan int) int {
 		return 0
 	}
 }
+
+// 9. counted operations inside a range loop.
+func rangeCount(xs []int, f func(int)) {
+	for _, x := range xs {
+		f(x)
+	}
+}
+
+func rangeCountOK(xs []int, f func(int)) {
+	for _, x := range xs {
+		f(x)
+	}
+}
+
+// 10. `exits` clauses hold at returns inside the loop.
+func firstNeg(xs []int) int {
+	for i := 0; i < len(xs); i++ {
+		if xs[i] < 0 {
+			return i
+		}
+	}
+	return -1
+}
+
+// 11. per-iteration two-state clauses.
+func acc(n int) int {
+	s := 0
+	for i := 0; i < n; i++ {
+		s += 2
+	}
+	return s
+}
